@@ -134,6 +134,39 @@ def check(ctx):
                     k2 = np.kron(rc, rc)
                     if np.abs(reps.r_reps[i].toarray() - np.where(np.abs(k2) > 1e-10, k2, 0)).max() > 1e-12:
                         ctx.fail("oracle", "C14/oracle/r_reps", f"{sc['name']}: r_reps[{i}] is not kron(R, R) with R = L r L^-1", replay=rep, has_input=True)
+                # the same for the first-, third- and fourth-order representation classes (R, R x R x R, R x R x R x R),
+                # and the first-order atom-permutation matrices
+                from symfc.spg_reps import SpgRepsO1, SpgRepsO3, SpgRepsO4
+                given = {"rotations": r_sub, "translations": t_sub} if sname != "all" or dname != "ideal" else None
+                for cls, kk in ((SpgRepsO1, 1), (SpgRepsO3, 3), (SpgRepsO4, 4)):
+                    if kk >= 3 and (N > 4 or (ctx.quick and dname != "ideal")):
+                        continue
+                    try:
+                        rk = cls(at, spacegroup_operations=given)
+                    except Exception as e:  # noqa: BLE001
+                        ctx.fail("oracle", "C14/oracle/raised", f"{sc['name']}/{dname}/{sname}: {cls.__name__} raised {type(e).__name__}: {e}", replay=rep, has_input=True)
+                        continue
+                    ctx.count(f"r_reps-order{kk}")
+                    if not np.array_equal(np.asarray(rk._permutations), perms) or list(rk.unique_rotation_indices) != list(reps.unique_rotation_indices):
+                        ctx.fail("oracle", f"C14/oracle/permutation/O{kk}", f"{sc['name']}/{dname}/{sname}: {cls.__name__} holds other permutations / unique rotations than SpgRepsO2", replay=rep, has_input=True)
+                        continue
+                    for i, ui in enumerate(rk.unique_rotation_indices):
+                        rc = L.T @ r_use[ui] @ np.linalg.inv(L.T)
+                        kr = rc
+                        for _ in range(kk - 1):
+                            kr = np.kron(rc, kr)
+                        got = rk.r_reps[i].toarray()
+                        if got.shape != kr.shape or np.abs(got - np.where(np.abs(kr) > 1e-10, kr, 0)).max() > 1e-12:
+                            ctx.fail("oracle", f"C14/oracle/r_reps/O{kk}", f"{sc['name']}/{dname}/{sname}: {cls.__name__}.r_reps[{i}] is not the {kk}-fold Kronecker power of R = L r L^-1 (operation {ui})", replay={**rep, "op": int(ui)}, has_input=True)
+                            break
+                    if kk == 1:
+                        for i, ui in enumerate(rk.unique_rotation_indices):
+                            S = rk.get_sigma1_rep(i).toarray()
+                            E = np.zeros((N, N))
+                            E[perms[ui], np.arange(N)] = 1
+                            if not np.array_equal(S, E):
+                                ctx.fail("oracle", "C14/oracle/sigma/O1", f"{sc['name']}/{dname}/{sname}: get_sigma1_rep({i}) is not the permutation matrix of operation {ui}", replay={**rep, "op": int(ui)}, has_input=True)
+                                break
 
     # ---- the same definitions evaluated in Coq
     def corr():
